@@ -24,6 +24,7 @@ type VC struct {
 	tier       string
 	orderTaint map[*ssa.Function]map[ssa.Value]bool
 	pureDecls  map[string]string
+	pureFns    map[string]*ssa.Function
 
 	structSorts map[string]*Sort
 	structOrder []string
@@ -55,7 +56,7 @@ func LoadProgram(repo string) (*VC, error) {
 	prog.Build()
 	vc := &VC{repo: repo, prog: prog, fset: prog.Fset, pkgs: map[string]*ssa.Package{}, pkgDir: map[*ssa.Package]string{},
 		structSorts: map[string]*Sort{}, heapSorts: map[string]*Sort{}, funcsByKey: map[string]*ssa.Function{},
-		effects: map[*ssa.Function]map[string]bool{}, effVia: map[*ssa.Function]map[string]map[int]bool{}, pureDecls: map[string]string{}, effBusy: map[*ssa.Function]bool{}, globalInit: map[*ssa.Global]ssa.Value{}}
+		effects: map[*ssa.Function]map[string]bool{}, effVia: map[*ssa.Function]map[string]map[int]bool{}, pureDecls: map[string]string{}, pureFns: map[string]*ssa.Function{}, effBusy: map[*ssa.Function]bool{}, globalInit: map[*ssa.Global]ssa.Value{}}
 	for i, p := range pkgs {
 		if spkgs[i] == nil {
 			continue
@@ -153,6 +154,7 @@ func (vc *VC) pureApp(fn *ssa.Function, idx int, args []Term) Term {
 			as = append(as, vc.sortOf(p.Type()).SMT())
 		}
 		vc.pureDecls[name] = fmt.Sprintf("(declare-fun %s (%s) %s)", name, strings.Join(as, " "), rs.SMT())
+		vc.pureFns[name] = fn
 	}
 	var a []string
 	for _, t := range args {
@@ -162,6 +164,93 @@ func (vc *VC) pureApp(fn *ssa.Function, idx int, args []Term) Term {
 		return Term{S: name, Sort: rs}
 	}
 	return Term{S: "(" + name + " " + strings.Join(a, " ") + ")", Sort: rs}
+}
+
+// pureAxioms: the unconditional postconditions of pure single-result functions as
+// quantified facts about their symbols (so that contracts mentioning f(args)
+// without calling f can use them).
+func (vc *VC) pureAxioms() string {
+	var sb strings.Builder
+	m := vc.pureAxiomsByName()
+	var ns []string
+	for n := range m {
+		ns = append(ns, n)
+	}
+	sort.Strings(ns)
+	for _, n := range ns {
+		sb.WriteString(m[n])
+	}
+	return sb.String()
+}
+
+// pureAxiomsByName: symbol name -> its axioms (so that a script only carries the axioms of symbols it mentions).
+func (vc *VC) pureAxiomsByName() map[string]string {
+	out := map[string]string{}
+	vc.pureAxiomsInto(out)
+	return out
+}
+
+func (vc *VC) pureAxiomsInto(out map[string]string) string {
+	var names []string
+	for n := range vc.pureFns {
+		if strings.HasSuffix(n, ".0") {
+			names = append(names, n)
+		}
+	}
+	sort.Strings(names)
+	var sb strings.Builder
+	for _, n := range names {
+		fn := vc.pureFns[n]
+		con := vc.contractOf(fn)
+		if con == nil || len(con.Requires) > 0 || fn.Signature.Results().Len() != 1 {
+			continue
+		}
+		vars := map[string]Term{}
+		var binders []string
+		var args []Term
+		for _, p := range fn.Params {
+			s := vc.sortOf(p.Type())
+			t := Term{S: "q!" + p.Name(), Sort: s, Ty: p.Type()}
+			vars[p.Name()] = t
+			args = append(args, t)
+			binders = append(binders, "(q!"+p.Name()+" "+s.SMT()+")")
+		}
+		if len(binders) == 0 {
+			continue
+		}
+		app := vc.pureApp(fn, 0, args)
+		vars["r0"] = app
+		if rn := fn.Signature.Results().At(0).Name(); rn != "" && rn != "_" {
+			vars[rn] = app
+		}
+		env := &Env{Vars: vars, Defs: vc.cs.Defs, Sorts: vc.typeParamSorts(fn)}
+		// the contract was proved for the split ranges only
+		guard := BoolLit(true)
+		skip := false
+		for _, sp := range con.Splits {
+			pt, ok := vars[sp.Var]
+			if !ok || sp.HiVar != "" {
+				skip = true
+				break
+			}
+			guard = And(guard, T(SBool, "(and (<= %s %s) (<= %s %s))", IntLit(int64(sp.Lo)).S, pt.S, pt.S, IntLit(int64(sp.Hi)).S))
+		}
+		if skip {
+			continue
+		}
+		for _, c := range con.Ensures {
+			t, err := ToSMT(c.Expr, env)
+			if err != nil || t.Sort.Kind != KBool {
+				continue
+			}
+			line := fmt.Sprintf("(assert (forall (%s) (! %s :pattern (%s))))\n", strings.Join(binders, " "), Implies(guard, t).S, app.S)
+			sb.WriteString(line)
+			if out != nil {
+				out[n] += line
+			}
+		}
+	}
+	return sb.String()
 }
 
 func sanitizeSym(s string) string {
